@@ -75,7 +75,23 @@ fn filter_by_id(report: &Report, allow_list: &[String]) -> bool {
     !allow_list.contains(&report.id())
 }
 
+/// Parsing, lowering and several analysis passes are recursive over the syntax
+/// tree. To handle deeply nested (e.g. machine generated) input the tool runs
+/// on a thread with a large stack.
+const STACK_SIZE: usize = 1024 * 1024 * 1024;
+
 fn main() -> ExitCode {
+    match std::thread::Builder::new().stack_size(STACK_SIZE).spawn(run) {
+        Ok(handle) => match handle.join() {
+            Ok(exit_code) => exit_code,
+            Err(payload) => std::panic::resume_unwind(payload),
+        },
+        // Fall back to the main thread.
+        Err(_) => run(),
+    }
+}
+
+fn run() -> ExitCode {
     // Initialize logger and options.
     pretty_env_logger::init();
     let options = Cli::parse();
